@@ -47,6 +47,24 @@ def value_case(draw, ctx):
         p = draw(st.sampled_from([2.0, 0.5, -1.0, -2.0, 4.0, 0.125, -0.25, 8.0, 1.0, 2.0 ** -12, 2.0 ** -20,
                                   -2.0 ** -16, 2.0 ** 12, 2.0 ** 20, 2.0 ** -40, -2.0 ** -33, 2.0 ** 40]))
         q = float(draw(st.integers(-50, 50)))
+        if len(case["y"]) >= 3 and draw(st.integers(0, 2)) == 0:
+            # jumps in simple ratios (1:1, 1:8, 1:27 ...), a window that is not a power of two and a fractional
+            # smoothing exponent: the window split a*gamma/(1+gamma) sits on or next to an integer, where any
+            # dependence of gamma on the unit of the values flips a sample from one window to the other
+            m = len(case["y"])
+            steps = [draw(st.sampled_from([1, 1, 1, 8, 27, 2, 4, -1, -8, -27, 3])) for _ in range(m - 1)]
+            y = [float(draw(st.integers(-5, 5)))]
+            for d in steps:
+                y.append(y[-1] + d)
+            case["y"] = y
+            case.pop("ydtype", None)
+            case["n"] = draw(st.sampled_from([6, 10, 12, 20, 24]))
+            win = draw(st.sampled_from([dict(alpha=0.5), dict(alpha=1.0), dict(a=6), dict(a=10), dict(a=12), {}]))
+            if win.get("a", 0) > case["n"]:
+                win = {}
+            keep = {k: v for k, v in case["kw"].items() if k not in ("a", "alpha", "adaptive_smooth")}
+            case["kw"] = dict(keep, **win, adaptive_smooth=draw(st.sampled_from([0.5, 1.5, 1.0 / 3.0, 2.0 / 3.0, 0.7, 2.5])))
+            case["ykind"] = "simple-ratio-jumps"
     else:
         case = draw(rfagen.rfa_case(ctx, strategies=[name], m_lo=2))
         p = draw(st.one_of(st.sampled_from([-1.0, 2.0, 1.0]), fl(0.01, 100.0), fl(-100.0, -0.01)))
